@@ -13,7 +13,8 @@ import ast
 import os
 
 MUTATORS = {'append', 'extend', 'insert', 'pop', 'remove', 'clear', 'update', 'add', 'discard', 'sort', 'reverse', 'setdefault',
-            'popitem', 'difference_update', 'intersection_update', 'symmetric_difference_update', '__setitem__', '__delitem__'}
+            'popitem', 'difference_update', 'intersection_update', 'symmetric_difference_update', '__setitem__', '__delitem__',
+            '__next__', 'send', 'seek', 'write', 'writelines', 'truncate', 'appendleft', 'popleft', 'rotate', 'cache_clear'}
 
 
 class ModuleInfo(object):
@@ -214,6 +215,12 @@ class Analysis(object):
                             g2 = self.resolve_global(key, t.value)
                             if g2:
                                 self.write_sites.setdefault(g2, []).append((key, n.lineno, 'mutate', 'del-subscript'))
+                elif isinstance(n, ast.Call) and isinstance(n.func, ast.Name) and n.func.id in ('next', 'setattr', 'delattr') and n.args \
+                        and isinstance(n.args[0], (ast.Name, ast.Attribute)):
+                    # next(g) advances a module-level iterator/generator: a mutation of g
+                    g2 = self.resolve_global(key, n.args[0])
+                    if g2:
+                        self.write_sites.setdefault(g2, []).append((key, n.lineno, 'mutate', n.func.id))
                 elif isinstance(n, ast.Call) and isinstance(n.func, ast.Attribute) and n.func.attr in MUTATORS:
                     if isinstance(n.func.value, (ast.Name, ast.Attribute)):
                         g2 = self.resolve_global(key, n.func.value)
